@@ -276,6 +276,16 @@ impl ZOutcome {
     }
 }
 
+thread_local! {
+    /// Number of async-std runtime threads (ASYNC_STD_THREAD_COUNT) for the zinoma processes this
+    /// worker spawns; 0 = the runtime's default (one per core). Set from the generated case.
+    pub static RUNTIME_THREADS: std::cell::Cell<u8> = const { std::cell::Cell::new(0) };
+}
+
+pub fn set_runtime_threads(n: u8) {
+    RUNTIME_THREADS.with(|c| c.set(n));
+}
+
 pub fn spawn_zinoma(
     sb: &Sandbox,
     project_dir: &Path,
@@ -309,6 +319,11 @@ pub fn spawn_zinoma_in(
     cmd.env("ZV_ROOT", &sb.root);
     cmd.env("RUST_BACKTRACE", "0");
     cmd.env_remove("ZINOMA_VERIF_CRASH");
+    cmd.env_remove("ASYNC_STD_THREAD_COUNT");
+    let rt = RUNTIME_THREADS.with(|c| c.get());
+    if rt > 0 {
+        cmd.env("ASYNC_STD_THREAD_COUNT", rt.to_string());
+    }
     for (k, v) in extra_env {
         cmd.env(k, v);
     }
